@@ -16,6 +16,8 @@ import (
 
 func init() {
 	register(&Property{ID: "C08", Run: runC08, Mutants: []Mutant{
+		{Name: "the .wa printer reads the receiver's name without looking at the list", File: "internal/printer/nodes.go", Old: "\t\tif len(d.Recv.List) > 0 && len(d.Recv.List[0].Names) > 0 && d.Recv.List[0].Names[0].Name == \"this\" {", New: "\t\tif d.Recv.List[0].Names[0].Name == \"this\" {", Expect: "receiver-name-guarded"},
+		{Name: "a declaration without names is built from `expr: type`", File: "internal/parser/parser.go", Old: "\t\tif len(idents) == 0 {\n\t\t\treturn &ast.BadStmt{From: x[0].Pos(), To: p.pos}, false\n\t\t}\n", New: "", Expect: "spec-names-nonempty"},
 		{Name: "x64 assembly prologue loop loses its default arm", File: "internal/native/parser/parser_file.go", Old: "\n\t\t\tdefault:\n\t\t\t\t// the first token of the code proper ends the prologue\n\t\t\t\tbreak Prologue\n", New: "\n\t\t\tcase token.EOF:\n\t\t\t\tbreak Prologue\n", Expect: "token-loop-progress"},
 		{Name: "native parser ignores tokens it does not know", File: "internal/native/parser/parser_file.go", Old: "\t\t\tdefault:\n\t\t\t\t// the first token of the code proper ends the prologue\n\t\t\t\tbreak Prologue\n", New: "\t\t\tdefault:\n\t\t\t\tcontinue Prologue\n", Expect: "token-loop-progress"},
 		{Name: "line-comment test reads the second byte before the first", File: "internal/printer/printer.go", Old: "\treturn text[0] == '#' || len(text) > 1 && text[1] == '/'", New: "\treturn text[1] == '/' || text[0] == '#'", Expect: "comment-marker-index"},
